@@ -306,31 +306,16 @@ theorem group_get_numeric_string_names_other_device :
     uidOf [Idx.num 3, Idx.str "7", Idx.num 7] (Idx.str "7") = some 1 ∧
     uidOf [Idx.num 3, Idx.str "7", Idx.num 7] (Idx.num 7) = some 2 := by decide +kernel
 
-/-- `_partial`: `DataSelect` on index fields returns the optional value where given, else the fallback,
-**provided no given optional value is a string**.  Full statement (false): without the hypothesis. -/
-theorem dataselect_follows_partial (opt fb : List (Option Idx))
-    (h : ∀ o ∈ opt, o = none ∨ ∃ k, o = some (Idx.num k)) :
-    dataSelect opt fb = some ((opt.zip fb).map (fun p => match p.1 with | none => p.2 | some v => some v)) := by
-  unfold dataSelect
-  induction opt generalizing fb with
-  | nil => rfl
-  | cons o opt ih =>
-    cases fb with
-    | nil => rfl
-    | cons f fb =>
-      have ih' := ih fb (fun o' ho' => h o' (List.mem_cons_of_mem _ ho'))
-      simp only [List.zip_cons_cons, List.mapM_cons, List.map_cons]
-      rw [ih']
-      rcases h o List.mem_cons_self with rfl | ⟨k, rfl⟩ <;> rfl
+/-- **`DataSelect` on index fields returns the optional value where given, else the fallback** — numbers and strings
+alike (full strength since the repair of `dataselect-string-idx`: `np.isnan` was applied to every given value and a
+string idx raised `TypeError`). -/
+theorem dataselect_follows (opt fb : List (Option Idx)) :
+    dataSelect opt fb = some ((opt.zip fb).map (fun p => match p.1 with | none => p.2 | some v => some v)) := rfl
 
-example : ∀ o ∈ [none, some (Idx.num 4)], o = none ∨ ∃ k, o = some (Idx.num k) := by
-  intro o ho; simp at ho; rcases ho with rfl | rfl
-  · exact Or.inl rfl
-  · exact Or.inr ⟨4, rfl⟩
-
-/-- **Counterexample (finding `dataselect-string-idx`)**: a string idx in an optional index field: `TypeError` -/
-theorem dataselect_string_idx_raises :
-    dataSelect [none, some (Idx.str "Bus_3")] [some (Idx.num 1), some (Idx.num 2)] = none := by decide +kernel
+/-- the input that failed on the pinned tree: a string idx in an optional index field is a given value -/
+theorem dataselect_string_idx_witness :
+    dataSelect [none, some (Idx.str "Bus_3")] [some (Idx.num 1), some (Idx.num 2)]
+      = some [some (Idx.num 1), some (Idx.str "Bus_3")] := by decide +kernel
 
 /-! ### Non-vacuity: a concrete system through both phases -/
 
